@@ -151,7 +151,13 @@ func readsSx(ss moss.Snapshot, universe [][]byte, depth int) sx {
 		if len(iterS) > 1 {
 			if first, ok := iterS[1].([]sx); ok && len(first) == 2 {
 				fk, _ := first[0].([]byte)
-				err := it.SeekTo(fk)
+				// ... seeking to the smallest possible key (so that deleted keys below the first
+				// entry lie in between), or to the first entry itself
+				target := fk
+				if len(fk)%2 == 0 {
+					target = []byte{}
+				}
+				err := it.SeekTo(target)
 				k, v, err2 := it.Current()
 				fv, _ := first[1].([]byte)
 				if err != nil || err2 != nil || !bytes.Equal(k, fk) || !bytes.Equal(v, fv) || (v == nil) != (fv == nil) {
